@@ -440,3 +440,53 @@ func WithMagic(r *fw.Rand, b []byte) []byte {
 	copy(b[pos:], m)
 	return b
 }
+
+// OpusPacket returns n bytes shaped like an Opus packet (RFC 6716 section 3): a TOC byte and, by its code, one frame, two equal
+// frames, two frames with a length, or code 3 with a frame-count byte (VBR flag, padding flag), padding length octets, frame data
+// and padding. To an RTP payloader all of it is opaque audio.
+func OpusPacket(r *fw.Rand, n int) []byte {
+	b := r.Bytes(n)
+	if n == 0 {
+		return b
+	}
+	code := r.Intn(4)
+	b[0] = byte(r.Intn(32))<<3 | byte(r.Intn(2))<<2 | byte(code)
+	if code != 3 || n < 4 {
+		return b
+	}
+	m := r.Range(1, 4)
+	pad := r.Pick(0, 1, 2, 5, 20, n/4)
+	if pad > 254 {
+		pad = 254
+	}
+	if pad+3 >= n {
+		pad = 0
+	}
+	b[1] = byte(m)
+	if r.Bool() {
+		b[1] |= 0x80 // VBR
+	}
+	if pad > 0 {
+		b[1] |= 0x40
+		b[2] = byte(pad) // one length octet (< 255)
+		fill := byte(0)
+		if r.Chance(1, 4) {
+			fill = byte(r.Intn(256))
+		}
+		for i := n - pad; i < n; i++ {
+			b[i] = fill
+		}
+		if b[1]&0x80 == 0 {
+			// CBR: make the frame bytes divisible by the frame count
+			frames := n - 3 - pad
+			if frames > m && frames%m != 0 && pad+frames%m < 255 && n-pad-frames%m > 3 {
+				extra := frames % m
+				b[2] = byte(pad + extra)
+				for i := n - pad - extra; i < n-pad; i++ {
+					b[i] = fill
+				}
+			}
+		}
+	}
+	return b
+}
